@@ -367,15 +367,29 @@ def challenges_unchanged(f):
                 continue
             base = {'m': mm, 'cap': cc, 'seeded': seeded, 'promises': ['3' if n >= 2 else None] * mm}
             attempts.append((n, base, dict(base, **alt)))
+    bms, bmi = d.get('batch_ms'), d.get('member', 0)
     for (nn, va, vb) in attempts:
         obs = []
         for variant in (va, vb):
-            o = run_replay({'scenario': 'batch', 'n': nn, 'x': x, 'members': [variant], 'actions': ['RecoverOnly']}, 1)
+            if bms:
+                # the datum of ONE member of a batch (every member in its own caller context): observe that member's mask / transcript
+                if variant.get('m') != bms[bmi]:
+                    continue
+                members = [{'m': mm, 'cap': max(bms), 'seeded': mm == 1, 'label': 'member %d' % i} for i, mm in enumerate(bms)]
+                members[bmi] = dict(variant, cap=max(bms), label='member %d' % bmi)
+            else:
+                members = [variant]
+            o = run_replay({'scenario': 'batch', 'n': nn, 'x': x, 'members': members, 'actions': ['RecoverOnly']}, 1)
             if 'crash' in o or not o.get('verify'):
                 obs.append(None)
                 continue
             v = o['verify'][0]
+            if bms and v['result'] == 'ok':
+                obs.append(([v['masks'][bmi]], [v['logs_after'][bmi]]))
+                continue
             obs.append((v.get('masks'), v.get('logs_after')) if v['result'] == 'ok' else ('refused', v['result']))
+        if len(obs) < 2:
+            continue
         if obs[0] is None or obs[1] is None or obs[0][0] == 'refused' or obs[1][0] == 'refused':
             continue
         if va.get('seeded') and obs[0][0] == obs[1][0]:
